@@ -123,6 +123,7 @@ PROPS = {
         "props_files": ["PasskeyVerif/Props/C15.lean"],
         "translators": [tr_decoders, tr_flags],
         "harness": [["gen", "C15"]],
+        "cargo_profile": "c15",
         "technique": "Lean 4 theorems over hand-written total models of the repository's own decoders (explicit panic outcome, never produced) and over facts regenerated from the Rust sources on every run (capped reservations, buffered list elements, no panicking construct left); differential correspondence on outcome classes; mutated inputs to all 18 decoders in isolated worker processes with address-space and time limits (search, the only evidence for the third-party decoders)",
         "trusted": COMMON_TRUSTED + [
             "translator translate/decoders.py (with_capacity arguments fed from size_hint and their .min(N) cap; derive/untagged attributes of PossiblyUnknown; slice indexing, split_at, unreachable!, unchecked GenericArray::from_slice in the U2F parsers and public_key_der_from_cose_key)",
